@@ -11,7 +11,7 @@ var Hostile = []string{
 	`"`, `\`, `\"`, `\\`, "\n", "\r", "\r\n", "\t", "\x00", "\x01", "\x07", "\x08", "\x0b", "\x0c", "\x1f", "\x7f",
 	"\x1b[31m", "\x1b[0m", "\x1b]0;pwned\x07", "\x1b[2J", "\x1b[1;1H", "\x1b", "\x9b31m",
 	"\xff", "\xfe\xfd", "\xc3", "\xe2\x82", "\xf0\x9f\x98", "\xc0\xaf", "\xed\xa0\x80",
-	"\u2028", "\u2029", "\u00a0", "\u200b", "\ufeff", "\ufffd", "\u00e9", "\u65e5\u672c\u8a9e", "\U0001f600", "\U0010ffff", "\u0085",
+	"\u2028", "\u2029", "\u00a0", "\u200b", "\ufeff", "\ufffd", "\u00e9", "\u65e5\u672c\u8a9e", "\U0001f600", "\U0010ffff", "\u0085", "next\u0085line", "\u0085\u0085", "\u0084\u0085\u0086",
 	`","level":"fatal`, `" forged="1`, "}\n{\"time\":\"x\",\"level\":\"panic\",\"msg\":\"forged\"}", `\u0000`, `\x41`, `%s%d%!`, `{{`, `}}`,
 	" ", "  ", "=", `="`, " k=v ", "a=b", "<b>", "</b>", "&amp;", "<", ">", "&", "&#10;", "&#xA;", "&NewLine;", "&#13;", "&#27;[31m", "&lt;", "&quot;", "&#0;", "<br>", "<i>x", "</u>", "'", "`", "[", "]", ",", "{", "}", ":", "null", "true", "<nil>",
 }
